@@ -301,6 +301,13 @@ def check_eval(params):
         want2 = want + ref_tensor_matrix(e)
         if not np.array_equal(num(sv.array).reshape(want2.shape), want2):
             bad("sum", "(d + e).eval() is not the sum of the evaluations")
+        # the same term more than once counts every time
+        for label, T, w in (("d + d", d + d, 2 * want), ("e + d + e", e + d + e, 2 * ref_tensor_matrix(e) + want),
+                            ("(d + d) + (d + e)", (d + d) + (d + e), 3 * want + ref_tensor_matrix(e))):
+            tv = T.eval()
+            if not np.array_equal(num(tv.array).reshape(w.shape), w):
+                bad("sum-repeated", "(%s).eval() is not the sum of the evaluations of its terms" % label)
+                break
     return out
 
 
@@ -366,6 +373,8 @@ def run(ctx):
     for rs in par.values():
         for r1, r2 in zip(rs[::5], rs[1::5]):
             items.append(("eval", dict(recipe=r1, recipe2=r2)))
+        if len(rs) == 1:
+            items.append(("eval", dict(recipe=rs[0], recipe2=rs[0])))
     for p in pmap(_worker, build.shards(items, 128)):
         ctx.merge(p)
     ctx.counters["traces_validated_against_impl"] = ctx.counters.get("transitions", 0)
